@@ -1,0 +1,7 @@
+//go:build verif
+
+// Contracts for /verif/govc (comment-only; see /verif/DESIGN.md section 3.2).
+package config
+
+//@ func config.ReadFromFile
+//@   ensures C20.nonnil [C20]: result1 == nil ==> result0 != nil
